@@ -15,6 +15,7 @@ Sources of AGP text:
   c. pretext_to_asm.write_assembly(..., "FASTA", ...) with a small-buffer index: the x.fa / x.agp pair
   d. the pretext-to-asm command with FASTA output (companion .agp against the written .fa; the input cache
      .agp against the input) and with AGP output
+  e. the asm-format command reformatting an AGP written here (a share of the assemblies of a.)
 """
 
 import contextlib
@@ -98,6 +99,51 @@ def check_format(scaffolds):
         return [f"format_agp raised {e!r}"]
     expected = [(n, sum(G.spec_length(s) for s in specs), specs) for n, specs in scaffolds]
     return check_agp_against(out.getvalue(), expected, code_lengths={sc.name: sc.length for sc in objs}, what="format_agp")
+
+
+def own_agp_text(scaffolds):
+    """AGP text for [(name, specs)] written here, as input for asm-format"""
+    sym = {1: "+", -1: "-", 0: "?"}
+    lines = ["##agp-version 2.1", "# written by c06"]
+    for name, specs in scaffolds:
+        pos = 0
+        for i, s in enumerate(specs, 1):
+            ln = G.spec_length(s)
+            if s[0] == "G":
+                cols = [name, pos + 1, pos + ln, i, "U", ln, s[2], "yes", "proximity_ligation"]
+            else:
+                cols = [name, pos + 1, pos + ln, i, "W", s[1], s[2], s[3], sym[s[4]], *s[5]]
+            pos += ln
+            lines.append("\t".join(map(str, cols)))
+    return "\n".join(lines) + "\n"
+
+
+def check_asm_format(d, scaffolds, to_file):
+    """e. asm-format: AGP in -> AGP out (stdout or -o file)"""
+    from click.testing import CliRunner
+
+    from tola.assembly.scripts.asm_format import cli as asm_cli
+
+    src = d / "in.agp"
+    dst = d / "out.agp"
+    src.write_text(own_agp_text(scaffolds))
+    try:
+        args = [str(src)] + (["-o", str(dst)] if to_file else [])
+        res = CliRunner().invoke(asm_cli, args)
+        if res.exit_code != 0:
+            return [f"asm-format failed on a valid AGP: {res.exception!r}"]
+        if to_file:
+            import gc
+
+            gc.collect()  # the command does not close its output file itself
+            text = dst.read_text()
+        else:
+            text = res.stdout
+        expected = [(n, sum(G.spec_length(s) for s in specs), specs) for n, specs in scaffolds]
+        return check_agp_against(text, expected, what="asm-format output")
+    finally:
+        src.unlink(missing_ok=True)
+        dst.unlink(missing_ok=True)
 
 
 def record_lengths_of(data):
@@ -196,6 +242,8 @@ def replay(inp):
         kind = inp["kind"]
         if kind == "format":
             m = check_format([(n, s) for n, s in inp["scaffolds"]])
+        elif kind == "asm-format":
+            m = check_asm_format(d, [(n, s) for n, s in inp["scaffolds"]], inp["to_file"])
         elif kind == "cache":
             m = check_cache(G.FastaCase.from_spec(inp["case"]), d / "r.fa", inp["buffer"], inp["warm"])
         elif kind == "pair":
@@ -213,7 +261,7 @@ def run(tier, seed, **opts):
     rng = random.Random(seed)
     quick = tier == "quick"
     max_rows = 4 if quick else 5
-    max_mask = 6 if quick else 8
+    max_mask = 6 if quick else 9
     col = Collector(
         f"a. format_agp on every scaffold of 1..{max_rows} rows from a pool of {len(POOL)} (strands +,-,?; tags; gaps of length 0/1/200, two "
         "types) alone and inside 2-3 scaffold assemblies; b. the .agp cache of FASTA files (every ACGT/other mask up to "
@@ -237,6 +285,13 @@ def run(tier, seed, **opts):
                 if msgs:
                     col.fail(msgs[0], inp)
                 col.case(("format", k % 5 == 0, combo), nontrivial=n > 1 or rows[0][0] == "G", sample=inp if combo == (1, 6, 2) else None)
+                if k % (40 if quick else 15) == 0:
+                    to_file = k % 80 == 0
+                    msgs = check_asm_format(d, scs, to_file)
+                    inp = {"kind": "asm-format", "scaffolds": scs, "to_file": to_file}
+                    if msgs:
+                        col.fail(msgs[0], inp)
+                    col.case(("asm-format", to_file, k % 5 == 0, combo), nontrivial=n > 1)
             if col.full:
                 break
         # ---- b
@@ -261,7 +316,7 @@ def run(tier, seed, **opts):
                     break
             if col.full:
                 break
-        for k in range(100 if quick else 3000):
+        for k in range(100 if quick else 6000):
             if col.full:
                 break
             case = G.random_case(rng, max_len=150 if quick else 400)
@@ -293,7 +348,7 @@ def run(tier, seed, **opts):
             if col.full:
                 break
         # ---- d
-        n_cli = 40 if quick else 1000
+        n_cli = 40 if quick else 1500
         for k in range(n_cli):
             if col.full:
                 break
@@ -313,7 +368,7 @@ def run(tier, seed, **opts):
             col.case(("cli", case.key(), ptxt, output), nontrivial=n_obj > len(case.records), sample=inp if k == 0 else None)
     return col.result(
         bounds=(
-            f"a: {len(POOL)}-row pool, scaffolds of 1..{max_rows} rows; b: masks to length {max_mask} x 24 layouts + {100 if quick else 3000} random files; "
+            f"a: {len(POOL)}-row pool, scaffolds of 1..{max_rows} rows; b: masks to length {max_mask} x 24 layouts + {100 if quick else 6000} random files; "
             f"c: buffers 1..{6 if quick else 11}, gaps 0..3*buffer+1, 3 assembly shapes; d: {n_cli} command runs (one input with 250000 / 500001 N runs "
             "to cross the command's fixed 250000 buffer)"
         ),
